@@ -94,7 +94,85 @@ class Check:
             self.samples.append(s)
 
     # -------------------------------------------------------------- finish
+    def wellformedness(self, incomplete=True):
+        """Rule WF.  Every property quantifies over float, double and long double.  When clang reports an error located
+        in one of the property's own anchor files while instantiating /repo for one of the three types, and either the
+        check could not complete (inconclusive obligations, a floor not reached, facts unusable) or the function the
+        error is in is one this check has obligations about (for any numeric type), the construct that is ill-formed for
+        that type is reported: the property cannot hold for a numeric type the code does not compile for.  A tree
+        without such errors (today's tree, any refactor that compiles for all three types) never reaches the violation
+        branch of this rule."""
+        import fnmatch
+        from . import frontend
+        if getattr(self, "_wf_done", False):
+            return 0
+        self._wf_done = True
+        anchors = []
+        for line in open(os.path.join(VERIF, "properties.jsonl"), encoding="utf-8"):
+            p = json.loads(line)
+            if p["id"] == self.pid:
+                anchors = p.get("anchors", {}).get("files", [])
+        work = frontend.build_facts(self.tier)
+        self.rule("WF", "code in this property's anchor files that the check has obligations about is well-formed when "
+                        "instantiated for float, double and long double (clang error located in /repo/include)")
+        errs = []
+        for T, tag in (("float", "f"), ("double", "d"), ("long double", "ld")):
+            side = os.path.join(work, "diag_%s.json" % tag)
+            try:
+                diags = json.load(open(side))
+            except (OSError, ValueError):
+                try:
+                    diags = json.load(open(os.path.join(work, "facts_%s.json" % tag))).get("diagnostics", [])
+                except OSError:
+                    continue
+                try:
+                    with open(side + ".%d" % os.getpid(), "w") as f:
+                        json.dump(diags, f)
+                    os.replace(side + ".%d" % os.getpid(), side)
+                except OSError:
+                    pass
+            for d in diags:
+                if d.get("level", "error") != "error" or not d["loc"].startswith(frontend.INC):
+                    continue
+                rel = "include/" + os.path.relpath(d["loc"].rsplit(":", 2)[0], frontend.INC)
+                if any(fnmatch.fnmatch(rel, a) for a in anchors):
+                    errs.append((T, d))
+        if not errs:
+            return 0
+        # the function each error is in: the last function of that file that starts at or before the error line
+        starts = {}
+        for tag in ("f", "d", "ld"):
+            try:
+                fns = json.load(open(os.path.join(work, "facts_%s.json" % tag)))["functions"]
+            except (OSError, KeyError):
+                continue
+            for f in (fns.values() if isinstance(fns, dict) else fns):
+                for k in ("loc", "def_loc"):
+                    l = f.get(k) or ""
+                    if l.startswith(frontend.INC) and l.count(":") >= 1:
+                        path, line = l.split(":")[0], int(l.split(":")[1])
+                        starts.setdefault(path, set()).add(line)
+        my_locs = {o["loc"] for o in self.obs if o["loc"]}
+        n = 0
+        for T, d in errs:
+            path, line = d["loc"].split(":")[0], int(d["loc"].split(":")[1])
+            before = [x for x in starts.get(path, ()) if x <= line]
+            relevant = incomplete
+            if before:
+                # (declaration line and definition line of the same function are both starts: look at the last two)
+                for st in sorted(before)[-2:]:
+                    if "%s:%d" % (os.path.relpath(path, frontend.INC), st) in my_locs:
+                        relevant = True
+            if not relevant:
+                continue
+            where = " ".join(x for x in d.get("notes", []) if "requested here" in x)[:300]
+            loc = os.path.relpath(d["loc"], frontend.INC)
+            self.violated("WF", "%s|%s" % (loc, T), "ill-formed for %s: %s %s" % (T, d["msg"], where), loc)
+            n += 1
+        return n
+
     def finish(self):
+        self.wellformedness(incomplete=any(o["status"] == "inconclusive" for o in self.obs) or any(m < fl for _, m, fl in self.floors))
         known, fixed = load_known()
         known_keys = {k["key"]: k for k in known if k["property"] == self.pid}
         viol = [o for o in self.obs if o["status"] == "violated"]
